@@ -44,8 +44,155 @@ type Stmt struct {
 
 type Input struct {
 	Kind    string   `json:"kind"`
-	Stmts   []Stmt   `json:"stmts"`
+	Stmts   []Stmt   `json:"stmts"` // the CURRENT content of the document object
 	Queries []string `json:"queries"`
+	History string   `json:"history"` // how the object got there, see hist
+	Before  *[]Stmt  `json:"before"`  // content it was built (and validated) with, when edited afterwards
+}
+
+// hist is the history of the document object the selections are made on: built with the
+// content Before (or Stmts), optionally validated (directly / by the verifier constructor),
+// optionally queried once ("warm"), optionally struct-copied, optionally edited into Stmts in
+// place or by assigning the exported slice, optionally validated again.
+type hist struct {
+	validate, warm, copy, revalidate bool
+	edit                             string // "", "inplace", "assign"
+}
+
+func parseHist(h string) hist {
+	var out hist
+	for _, t := range strings.Split(h, ",") {
+		switch t {
+		case "validated":
+			out.validate = true
+		case "unvalidated":
+		case "warm":
+			out.warm = true
+		case "copy":
+			out.copy = true
+		case "edit-inplace":
+			out.edit = "inplace"
+		case "edit-assign":
+			out.edit = "assign"
+		case "revalidated":
+			out.revalidate = true
+		default:
+			panic("unknown history token " + t)
+		}
+	}
+	return out
+}
+
+// docObj is one document object of either kind.
+type docObj struct {
+	o *trustpolicy.OCIDocument
+	b *trustpolicy.BlobDocument
+}
+
+func parseDoc(kind string, raw []byte) *docObj {
+	if kind == "oci" {
+		return &docObj{o: parseOCI(raw)}
+	}
+	return &docObj{b: parseBlob(raw)}
+}
+
+func (d *docObj) validate() error {
+	if d.o != nil {
+		return d.o.Validate()
+	}
+	return d.b.Validate()
+}
+
+// structCopy is `c := *doc`: the exported fields share their backing arrays with the original
+// and whatever unexported state the document carries comes along.
+func (d *docObj) structCopy() *docObj {
+	if d.o != nil {
+		c := *d.o
+		return &docObj{o: &c}
+	}
+	c := *d.b
+	return &docObj{b: &c}
+}
+
+func overwriteStrings(dst, src []string) []string {
+	if len(dst) == len(src) {
+		copy(dst, src) // same backing array
+		return dst
+	}
+	return src
+}
+
+// edit turns the object's content into target's: "assign" replaces the exported slice,
+// "inplace" overwrites the existing statements field by field (slices element-wise when the
+// lengths agree), truncates or appends.
+func (d *docObj) edit(target *docObj, style string) {
+	if d.o != nil {
+		src := target.o.TrustPolicies
+		if style == "assign" {
+			d.o.TrustPolicies = src
+			return
+		}
+		dst := d.o.TrustPolicies
+		n := len(dst)
+		if len(src) < n {
+			n = len(src)
+		}
+		for i := 0; i < n; i++ {
+			t := &dst[i]
+			t.Name = src[i].Name
+			t.SignatureVerification = src[i].SignatureVerification
+			t.TrustStores = overwriteStrings(t.TrustStores, src[i].TrustStores)
+			t.TrustedIdentities = overwriteStrings(t.TrustedIdentities, src[i].TrustedIdentities)
+			t.RegistryScopes = overwriteStrings(t.RegistryScopes, src[i].RegistryScopes)
+		}
+		d.o.TrustPolicies = append(dst[:n], src[n:]...)
+		return
+	}
+	src := target.b.TrustPolicies
+	if style == "assign" {
+		d.b.TrustPolicies = src
+		return
+	}
+	dst := d.b.TrustPolicies
+	n := len(dst)
+	if len(src) < n {
+		n = len(src)
+	}
+	for i := 0; i < n; i++ {
+		t := &dst[i]
+		t.Name = src[i].Name
+		t.SignatureVerification = src[i].SignatureVerification
+		t.TrustStores = overwriteStrings(t.TrustStores, src[i].TrustStores)
+		t.TrustedIdentities = overwriteStrings(t.TrustedIdentities, src[i].TrustedIdentities)
+		t.GlobalPolicy = src[i].GlobalPolicy
+	}
+	d.b.TrustPolicies = append(dst[:n], src[n:]...)
+}
+
+// selectName performs one selection and returns the statement's name (nil = refused).
+func (d *docObj) selectName(kind, q string) *string {
+	var name string
+	switch kind {
+	case "oci":
+		p, err := d.o.GetApplicableTrustPolicy(q)
+		if err != nil {
+			return nil
+		}
+		name = p.Name
+	case "blob":
+		p, err := d.b.GetApplicableTrustPolicy(q)
+		if err != nil {
+			return nil
+		}
+		name = p.Name
+	default:
+		p, err := d.b.GetGlobalTrustPolicy()
+		if err != nil {
+			return nil
+		}
+		name = p.Name
+	}
+	return &name
 }
 
 type QObs struct {
@@ -332,14 +479,11 @@ type e2e struct {
 
 const noVerifier = other + ":no-verifier"
 
-func newE2E(kind string, stmts []Stmt, raw []byte) *e2e {
+// newE2E hands the document object to the verifier constructor (which validates it and keeps
+// the pointer). stmts is the content the selections will be judged against.
+func newE2E(stmts []Stmt, d *docObj) *e2e {
 	ts := &memStore{root: getWorld().chain.Root().Cert}
-	opts := verifier.VerifierOptions{}
-	if kind == "oci" {
-		opts.OCITrustPolicy = parseOCI(raw)
-	} else {
-		opts.BlobTrustPolicy = parseBlob(raw)
-	}
+	opts := verifier.VerifierOptions{OCITrustPolicy: d.o, BlobTrustPolicy: d.b}
 	v, err := verifier.NewVerifierWithOptions(ts, opts)
 	if err != nil {
 		// observed, not assumed: the constructor refused the document
@@ -404,8 +548,10 @@ func (e *e2e) verifyBlob(name string, real bool) string {
 
 // ---- one case ---------------------------------------------------------------------------------
 
-var wildcardOnly = parseOCI(docJSON("oci", []Stmt{{Name: "w", Scopes: []string{"*"}, Level: "strict",
-	Stores: []string{"ca:w"}, Identities: []string{"*"}}}))
+// a document whose only statement carries the wildcard: it refuses a reference only when the
+// reference itself is refused. One object per case (workers share nothing).
+var wildcardOnlyRaw = docJSON("oci", []Stmt{{Name: "w", Scopes: []string{"*"}, Level: "strict",
+	Stores: []string{"ca:w"}, Identities: []string{"*"}}})
 
 func containsStmt(l []Stmt, s Stmt) bool {
 	for _, x := range l {
@@ -433,65 +579,88 @@ func runCase(in Input, real func(q int) bool) Obs {
 			pristine = append(pristine, canonBlob(&d.TrustPolicies[i]))
 		}
 	}
-	// validation is observed, not assumed: the document's own Validate() and the verifier's
-	// constructor. Only when both refuse the document is there nothing to select from.
-	var verr error
-	if in.Kind == "oci" {
-		verr = parseOCI(raw).Validate()
-	} else {
-		verr = parseBlob(raw).Validate()
-	}
-	e := newE2E(in.Kind, in.Stmts, raw)
-	obs := Obs{Validated: verr == nil, VerifierAccepts: e.built, Queries: []QObs{}}
+	// validation is observed, not assumed: Validate() and the verifier's constructor on fresh
+	// objects with the current content. Only when both refuse it is there nothing to select from.
+	verr := parseDoc(in.Kind, raw).validate()
+	obs := Obs{Validated: verr == nil, VerifierAccepts: newE2E(in.Stmts, parseDoc(in.Kind, raw)).built, Queries: []QObs{}}
 	if !obs.Validated && !obs.VerifierAccepts {
 		return obs
 	}
-	// the same document with its statements in reverse order (never mutated)
+	h := parseHist(in.History)
+	wildcardOnly := parseOCI(wildcardOnlyRaw)
+	rawBefore := raw
+	if in.Before != nil {
+		rawBefore = docJSON(in.Kind, *in.Before)
+	}
+	selKind := in.Kind
+	warmUp := func(sel func(kind, q string)) {
+		for _, q := range in.Queries {
+			sel(selKind, q)
+		}
+		if in.Kind == "blob" {
+			sel("global", "")
+		}
+	}
+	// the verifier: constructed from an object with the earlier content (the constructor validates
+	// it and keeps the pointer), queried, and then the caller edits that very object
+	var e *e2e
+	{
+		vd := parseDoc(in.Kind, rawBefore)
+		if h.copy {
+			vd.validate()
+			vd = vd.structCopy()
+			if h.edit != "" {
+				vd.edit(parseDoc(in.Kind, raw), h.edit)
+			}
+			e = newE2E(in.Stmts, vd)
+		} else {
+			e = newE2E(in.Stmts, vd)
+			if h.warm {
+				warmUp(func(kind, q string) {
+					if in.Kind == "oci" {
+						e.skipOCI(q)
+					} else {
+						e.verifyBlob(q, false)
+					}
+				})
+			}
+			if h.edit != "" {
+				vd.edit(parseDoc(in.Kind, raw), h.edit)
+			}
+			if h.revalidate {
+				vd.validate()
+			}
+		}
+	}
+	// the same content with its statements in reverse order (never mutated)
 	rev := make([]Stmt, len(in.Stmts))
 	for i := range in.Stmts {
 		rev[len(in.Stmts)-1-i] = in.Stmts[i]
 	}
-	rawRev := docJSON(in.Kind, rev)
-	var odRev *trustpolicy.OCIDocument
-	var bdRev *trustpolicy.BlobDocument
-	if in.Kind == "oci" {
-		odRev = parseOCI(rawRev)
-	} else {
-		bdRev = parseBlob(rawRev)
+	revDoc := parseDoc(in.Kind, docJSON(in.Kind, rev))
+	if h.validate {
+		revDoc.validate()
 	}
-	reversed := func(kind, q string) *string {
-		var name string
-		switch kind {
-		case "oci":
-			p, err := odRev.GetApplicableTrustPolicy(q)
-			if err != nil {
-				return nil
-			}
-			name = p.Name
-		case "blob":
-			p, err := bdRev.GetApplicableTrustPolicy(q)
-			if err != nil {
-				return nil
-			}
-			name = p.Name
-		default:
-			p, err := bdRev.GetGlobalTrustPolicy()
-			if err != nil {
-				return nil
-			}
-			name = p.Name
-		}
-		return &name
-	}
+	reversed := revDoc.selectName
 
-	// the document the direct selections (and the mutations) work on, for the whole case
-	var od *trustpolicy.OCIDocument
-	var bd *trustpolicy.BlobDocument
-	if in.Kind == "oci" {
-		od = parseOCI(raw)
-	} else {
-		bd = parseBlob(raw)
+	// the object the direct selections (and the mutations) work on, for the whole case, with its history
+	doc := parseDoc(in.Kind, rawBefore)
+	if h.validate {
+		doc.validate()
 	}
+	if h.warm {
+		warmUp(func(kind, q string) { doc.selectName(kind, q) })
+	}
+	if h.copy {
+		doc = doc.structCopy()
+	}
+	if h.edit != "" {
+		doc.edit(parseDoc(in.Kind, raw), h.edit)
+	}
+	if h.revalidate {
+		doc.validate()
+	}
+	od, bd := doc.o, doc.b
 	// sel performs one direct selection and returns (canonical contents, handle to mutate)
 	sel := func(kind string, q string) (Stmt, any, error) {
 		switch kind {
@@ -856,6 +1025,7 @@ func flush(c *common.Ctx) {
 		c.Emit(in, o)
 		c.Count("kind=" + kind)
 		c.Count(fmt.Sprintf("document=%s validated=%v verifierAccepts=%v", j.label, o.Validated, o.VerifierAccepts))
+		c.Count("history=" + in.History)
 		c.Count(fmt.Sprintf("%s.statements=%d", kind, len(in.Stmts)))
 		if len(o.Queries) > 0 {
 			for q := range in.Queries {
@@ -884,7 +1054,10 @@ func flush(c *common.Ctx) {
 
 func emitAllPerms(c *common.Ctx, kind, label string, stmts []Stmt, queries []string, realEvery int) {
 	for pi, p := range perms(len(stmts)) {
-		in := Input{Kind: kind, Stmts: make([]Stmt, len(stmts)), Queries: queries}
+		in := Input{Kind: kind, Stmts: make([]Stmt, len(stmts)), Queries: queries, History: "validated"}
+		if pi%2 == 1 {
+			in.History = "unvalidated"
+		}
 		for i, j := range p {
 			in.Stmts[i] = stmts[j]
 		}
@@ -1015,13 +1188,279 @@ func genBrokenBlobDoc(c *common.Ctx, k int, defect string) []Stmt {
 	}
 }
 
+// ---- histories: validate -> (query) -> edit into another valid document -> select ----------------
+
+func cloneStmts(l []Stmt) []Stmt {
+	out := make([]Stmt, len(l))
+	for i, s := range l {
+		out[i] = s
+		out[i].Scopes = strs(s.Scopes)
+		out[i].Stores = strs(s.Stores)
+		out[i].Identities = strs(s.Identities)
+	}
+	return out
+}
+
+func unusedCfg(c *common.Ctx, stmts []Stmt, allowSkip bool) levelCfg {
+	for {
+		cfg := levelCfgs[c.Rand.Intn(len(levelCfgs))]
+		if cfg.level == "skip" && !allowSkip {
+			continue
+		}
+		probe := Stmt{Level: cfg.level, Override: cfg.override}
+		pe, _ := effLevel(sigVerification(probe))
+		clash := false
+		for _, s := range stmts {
+			if e, ok := effLevel(sigVerification(s)); ok && reflect.DeepEqual(e, pe) {
+				clash = true
+			}
+		}
+		if !clash {
+			return cfg
+		}
+	}
+}
+
+var ociEdits = []string{"reorder", "move-scope", "append-statement", "remove-statement", "swap-scope-sets",
+	"add-scope", "drop-scope", "swap-names", "unrelated"}
+
+// editOCI derives another VALID document from a valid one.
+func editOCI(c *common.Ctx, before []Stmt, kind string) ([]Stmt, bool) {
+	a := cloneStmts(before)
+	k := len(a)
+	var plain []int
+	used := map[string]bool{}
+	for i, s := range a {
+		if !(len(s.Scopes) == 1 && s.Scopes[0] == "*") {
+			plain = append(plain, i)
+		}
+		for _, sc := range s.Scopes {
+			used[sc] = true
+		}
+	}
+	var free []string
+	for _, sc := range scopeAlphabet {
+		if !used[sc] {
+			free = append(free, sc)
+		}
+	}
+	two := func() (int, int) {
+		x := c.Rand.Intn(k)
+		y := c.Rand.Intn(k - 1)
+		if y >= x {
+			y++
+		}
+		return x, y
+	}
+	switch kind {
+	case "reorder":
+		if k < 2 {
+			return nil, false
+		}
+		ps := perms(k)
+		p := ps[1+c.Rand.Intn(len(ps)-1)]
+		identity := true
+		out := make([]Stmt, k)
+		for i, j := range p {
+			out[i] = a[j]
+			if i != j {
+				identity = false
+			}
+		}
+		return out, !identity
+	case "move-scope":
+		var rich []int
+		for _, i := range plain {
+			if len(a[i].Scopes) >= 2 {
+				rich = append(rich, i)
+			}
+		}
+		if len(rich) == 0 || len(plain) < 2 {
+			return nil, false
+		}
+		from := rich[c.Rand.Intn(len(rich))]
+		to := plain[c.Rand.Intn(len(plain))]
+		if to == from {
+			return nil, false
+		}
+		j := c.Rand.Intn(len(a[from].Scopes))
+		sc := a[from].Scopes[j]
+		a[from].Scopes = append(a[from].Scopes[:j], a[from].Scopes[j+1:]...)
+		a[to].Scopes = append(a[to].Scopes, sc)
+		return a, true
+	case "append-statement":
+		if k >= 4 || len(free) == 0 {
+			return nil, false
+		}
+		n := Stmt{Name: fmt.Sprintf("p%d", k+4), Scopes: []string{free[c.Rand.Intn(len(free))]}}
+		fill(c, &n, k+4, unusedCfg(c, a, true))
+		pos := c.Rand.Intn(k + 1)
+		if c.Rand.Intn(2) == 0 {
+			pos = k
+		}
+		return append(append(append([]Stmt{}, a[:pos]...), n), a[pos:]...), true
+	case "remove-statement":
+		if k < 2 {
+			return nil, false
+		}
+		j := c.Rand.Intn(k)
+		return append(a[:j], a[j+1:]...), true
+	case "swap-scope-sets":
+		if k < 2 {
+			return nil, false
+		}
+		x, y := two()
+		a[x].Scopes, a[y].Scopes = a[y].Scopes, a[x].Scopes
+		return a, true
+	case "add-scope":
+		if len(plain) == 0 || len(free) == 0 {
+			return nil, false
+		}
+		i := plain[c.Rand.Intn(len(plain))]
+		a[i].Scopes = append(a[i].Scopes, free[c.Rand.Intn(len(free))])
+		return a, true
+	case "drop-scope":
+		var rich []int
+		for _, i := range plain {
+			if len(a[i].Scopes) >= 2 {
+				rich = append(rich, i)
+			}
+		}
+		if len(rich) == 0 {
+			return nil, false
+		}
+		i := rich[c.Rand.Intn(len(rich))]
+		j := c.Rand.Intn(len(a[i].Scopes))
+		a[i].Scopes = append(a[i].Scopes[:j], a[i].Scopes[j+1:]...)
+		return a, true
+	case "swap-names":
+		if k < 2 {
+			return nil, false
+		}
+		x, y := two()
+		a[x].Name, a[y].Name = a[y].Name, a[x].Name
+		return a, true
+	default: // unrelated
+		return genOCIDoc(c, 1+c.Rand.Intn(4), c.Rand.Intn(2) == 0), true
+	}
+}
+
+var blobEdits = []string{"reorder", "swap-names", "rename", "move-global", "append-statement", "remove-statement", "unrelated"}
+
+func editBlob(c *common.Ctx, before []Stmt, kind string) ([]Stmt, bool) {
+	a := cloneStmts(before)
+	k := len(a)
+	used := map[string]bool{}
+	g := -1
+	for i, s := range a {
+		used[s.Name] = true
+		if s.IsGlobal {
+			g = i
+		}
+	}
+	var free []string
+	for _, n := range blobNames {
+		if !used[n] {
+			free = append(free, n)
+		}
+	}
+	switch kind {
+	case "reorder":
+		if k < 2 {
+			return nil, false
+		}
+		ps := perms(k)
+		p := ps[1+c.Rand.Intn(len(ps)-1)]
+		out := make([]Stmt, k)
+		identity := true
+		for i, j := range p {
+			out[i] = a[j]
+			if i != j {
+				identity = false
+			}
+		}
+		return out, !identity
+	case "swap-names":
+		if k < 2 {
+			return nil, false
+		}
+		x := c.Rand.Intn(k)
+		y := (x + 1 + c.Rand.Intn(k-1)) % k
+		a[x].Name, a[y].Name = a[y].Name, a[x].Name
+		return a, true
+	case "rename":
+		if len(free) == 0 {
+			return nil, false
+		}
+		a[c.Rand.Intn(k)].Name = free[c.Rand.Intn(len(free))]
+		return a, true
+	case "move-global":
+		var cand []int
+		for i, s := range a {
+			if i != g && s.Level != "skip" {
+				cand = append(cand, i)
+			}
+		}
+		if len(cand) == 0 {
+			return nil, false
+		}
+		if g >= 0 {
+			a[g].IsGlobal = false
+		}
+		a[cand[c.Rand.Intn(len(cand))]].IsGlobal = true
+		return a, true
+	case "append-statement":
+		if k >= 4 || len(free) == 0 {
+			return nil, false
+		}
+		n := Stmt{Name: free[c.Rand.Intn(len(free))], Scopes: []string{}}
+		fill(c, &n, k+4, unusedCfg(c, a, true))
+		pos := c.Rand.Intn(k + 1)
+		return append(append(append([]Stmt{}, a[:pos]...), n), a[pos:]...), true
+	case "remove-statement":
+		if k < 2 {
+			return nil, false
+		}
+		j := c.Rand.Intn(k)
+		return append(a[:j], a[j+1:]...), true
+	default:
+		return genBlobDoc(c, 1+c.Rand.Intn(4), c.Rand.Intn(3) != 0), true
+	}
+}
+
+// the histories every (before, after) pair goes through
+var editHistories = []string{
+	"validated,edit-inplace",
+	"validated,edit-assign",
+	"validated,warm,edit-inplace",
+	"validated,warm,edit-assign",
+	"validated,edit-inplace,revalidated",
+	"validated,copy,edit-assign",
+	"validated,warm,copy,edit-inplace",
+	"unvalidated,warm,edit-assign",
+}
+
+func emitHistories(c *common.Ctx, kind, label string, before, after []Stmt, queries []string, realEvery int) {
+	b := cloneStmts(before)
+	for hi, h := range editHistories {
+		in := Input{Kind: kind, Stmts: after, Queries: queries, History: h, Before: &b}
+		pending = append(pending, job{in: in, pi: hi + 1, realEvery: realEvery, label: "edited:" + label})
+	}
+	// a struct copy of a validated document whose content was not changed
+	in := Input{Kind: kind, Stmts: after, Queries: queries, History: "validated,warm,copy"}
+	pending = append(pending, job{in: in, pi: 1, realEvery: realEvery, label: "copied"})
+	if len(pending) >= 1024 {
+		flush(c)
+	}
+}
+
 // Run: documents x all permutations x query battery.
 func Run(c *common.Ctx) error {
-	nOCI, nBlob, nBadOCI, nBadBlob, realEvery := 400, 80, 120, 30, 7
+	nOCI, nBlob, nBadOCI, nBadBlob, nEditOCI, nEditBlob, realEvery := 400, 80, 120, 30, 180, 56, 7
 	getWorld() // before the workers start
 	pending = nil
 	if c.Thorough() {
-		nOCI, nBlob, nBadOCI, nBadBlob, realEvery = 6000, 1000, 1500, 300, 5
+		nOCI, nBlob, nBadOCI, nBadBlob, nEditOCI, nEditBlob, realEvery = 4500, 1000, 1500, 300, 1800, 450, 5
 	}
 	// fixed documents that pin the near-miss shapes whatever the seed
 	fixed := [][]Stmt{
@@ -1073,6 +1512,32 @@ func Run(c *common.Ctx) error {
 		stmts := genBrokenBlobDoc(c, 2+c.Rand.Intn(3), defect)
 		emitAllPerms(c, "blob", defect, stmts, blobQueries(c, stmts), realEvery)
 	}
+	// histories on one document object: built and validated with one valid content, edited into
+	// another valid content, then queried (queries chosen for the union of both contents)
+	for n := 0; n < nEditOCI; n++ {
+		kind := ociEdits[n%len(ociEdits)]
+		for {
+			before := genOCIDoc(c, 1+c.Rand.Intn(4), c.Rand.Intn(2) == 0)
+			after, ok := editOCI(c, before, kind)
+			if !ok {
+				continue
+			}
+			emitHistories(c, "oci", kind, before, after, ociQueries(c, append(cloneStmts(before), after...)), realEvery)
+			break
+		}
+	}
+	for n := 0; n < nEditBlob; n++ {
+		kind := blobEdits[n%len(blobEdits)]
+		for {
+			before := genBlobDoc(c, 1+c.Rand.Intn(4), c.Rand.Intn(3) != 0)
+			after, ok := editBlob(c, before, kind)
+			if !ok {
+				continue
+			}
+			emitHistories(c, "blob", kind, before, after, blobQueries(c, append(cloneStmts(before), after...)), realEvery)
+			break
+		}
+	}
 	for n := 0; n < nOCI; n++ {
 		k := 1 + n%4
 		stmts := genOCIDoc(c, k, c.Rand.Intn(2) == 0)
@@ -1084,6 +1549,7 @@ func Run(c *common.Ctx) error {
 		emitAllPerms(c, "blob", "unique", stmts, blobQueries(c, stmts), realEvery)
 	}
 	flush(c)
+	c.Note("histories on ONE document object: %d OCI + %d blob (before, after) pairs of valid contents (edits: %v / %v), each through %d histories %v plus an unedited struct copy - the object is built with `before`, validated (Validate() for the direct object, NewVerifierWithOptions for the verifier's, which keeps the pointer), optionally queried once, optionally struct-copied, edited in place (field by field, element-wise, truncate/append) or by assigning the exported slice, optionally re-validated, then every query runs against it; the model ignores the history. ", nEditOCI, nEditBlob, ociEdits, blobEdits, len(editHistories), editHistories)
 	c.Note("documents breaking exactly one uniqueness rule (two / three wildcard statements, a scope in two statements, a scope twice in one statement, duplicate statement names, wildcard next to another scope; blob: two global statements, duplicate names): %d fixed + %d random OCI, %d random blob, all permutations - Validate() and the verifier constructor are OBSERVED (validated / verifierAccepts), and if either accepts such a document the full selection experiment runs on it; every selection is repeated on the reversed document. ", len(fixedBad), nBadOCI, nBadBlob)
 	c.Note("documents satisfying the uniqueness rules (Validate() observed, not assumed): %d fixed + %d random OCI documents of 1..4 statements over a %d-scope near-miss alphabet with/without a wildcard statement, %d random blob documents of 1..4 statements with/without a global one; every document in ALL permutations of its statements; per case %d+ OCI references (listed, unlisted, prefix/extension, case variants, tag, tag+digest, no digest, two '@', wildcard paths, blanks, random one-edit variants) or %d+ blob names; each query through the document selection, verifier.Verify/SkipVerify/VerifyBlob (garbage envelope always, genuine envelope on the first permutation and a rotating sample), then reflection-mutation of the handed-out copy and re-selection",
 		len(fixed), nOCI, len(scopeAlphabet), nBlob, 31+3, len(blobNames)+8+2)
